@@ -61,6 +61,7 @@ def run(rep, pid, thorough):
             cfg('multi-two-sync-end-panicking-teardown', MaxSteps=3 if thorough else 2, MaxPerSrc=2, Cuts='TRUE', SyncSetName='"ends"', PanicSrcs='{1, 2}'),
             cfg('multi-three-sync-end', MaxSteps=3 if thorough else 2, MaxPerSrc=2, Cuts='TRUE', SyncSetName='"ends"', InstSetName='"three"'),
             cfg('multi-two-downstream-cut', MaxSteps=5 if thorough else 4, MaxPerSrc=3, TailSetName='"cuts"'),
+            cfg('multi-zip3-deep', MaxSteps=8 if thorough else 7, MaxPerSrc=3, InstSetName='"zip3"'),
             cfg('multi-three', MaxSteps=5 if thorough else 4, MaxPerSrc=2, InstSetName='"three"')]
     pp.run(rep, pid, cfgs, modes='ctl-unsafe,ctl-safe', module='MultiGen', replay_cmd='replay-multi', class_props=CLASS_PROPS, prefix='multi.')
 
